@@ -244,6 +244,13 @@ const HTTP_R_SERVER_KEYS_RESPONSE: &[&str] = &[
     "200\nContent-Type: application/json\n\n{\"server_name\":\"example.org\",\"verify_keys\":{\"ed25519:abc123\":{\"key\":\"VGhpcyBzaG91bGQgYmUgYSByZWFsIGVkMjU1MTkgcGF5bG9hZA\"}},\"old_verify_keys\":{\"ed25519:0ldk3y\":{\"expired_ts\":1532645052628,\"key\":\"VGhpcyBzaG91bGQgYmUgeW91ciBvbGQga2V5J3MgZWQyNTUxOSBwYXlsb2Fk\"}},\"signatures\":{\"example.org\":{\"ed25519:auto2\":\"VGhpcyBzaG91bGQgYWN0dWFsbHkgYmUgYSBzaWduYXR1cmU\"}},\"valid_until_ts\":1652262000000}",
     "200\n\n{\"server_name\":\"[::1]:8448\",\"verify_keys\":{},\"old_verify_keys\":{},\"signatures\":{},\"valid_until_ts\":0}",
 ];
+const HTTP_R_FED_MEDIA: &[&str] = &[
+    "200\nContent-Type: multipart/mixed; boundary=abcdef\n\n--abcdef\r\nContent-Type: application/json\r\n\r\n{}\r\n--abcdef\r\nContent-Type: text/plain\r\nContent-Disposition: attachment; filename=\"my file.txt\"\r\n\r\nsome plain text\r\n--abcdef--",
+    "200\nContent-Type: multipart/mixed; boundary=\"b 1\"\n\npreamble\r\n--b 1\r\nContent-Type: application/json\r\n\r\n{\"x\":1}\r\n--b 1\r\nLocation: https://cdn.example.org/ab/c1/2345.txt\r\n\r\n\r\n--b 1--\r\nepilogue",
+    "200\nContent-Type: multipart/mixed; boundary=x\n\n--x\nContent-Type: application/json\n\n{}\n\r\n--x\n\nbinary \u{0}\u{1} data\r\n--x--",
+    "404\nContent-Type: application/json\n\n{\"errcode\":\"M_NOT_FOUND\",\"error\":\"nope\"}",
+];
+
 const HTTP_R_GET_CONTENT_RESPONSE: &[&str] = &[
     "200\nContent-Type: image/png\nContent-Disposition: attachment; filename*=utf-8''%E2%82%AC%20rates.png\n\n\u{89}PNG binary",
     "200\nContent-Disposition: inline; filename=\"a b.txt\"\n\nhello",
@@ -328,6 +335,7 @@ pub fn embedded(name: &str) -> Vec<Vec<u8>> {
         "http.r.sync_response" => strs(HTTP_R_SYNC_RESPONSE),
         "http.r.server_keys_response" => strs(HTTP_R_SERVER_KEYS_RESPONSE),
         "http.r.get_content_response" => strs(HTTP_R_GET_CONTENT_RESPONSE),
+        "http.r.fed_media_content" | "http.r.fed_media_thumbnail" => strs(HTTP_R_FED_MEDIA),
         "stateres.auth_types" | "stateres.auth_check" | "stateres.resolve" => strs(STATERES),
         _ => Vec::new(),
     }
